@@ -228,6 +228,37 @@ func bodyC21(c c21Case, x *vkit.Ctx) {
 	adjf, _ := adjusted.Float64()
 	opMag := df + math.Abs(c.A.Adj) + math.Abs(c.B.Adj)
 	ambiguous := math.Abs(adjf) <= 1e-9+1e-12*opMag
+	if ambiguous {
+		// Near the guard's zero point the branch may legitimately depend on
+		// rounding - but only if rounding can play a part at all. When every
+		// float64 evaluation order of "distance + adjustments" (with the float64
+		// distance the exact one rounds to) lands on the same side of the guard as
+		// the exact value, no rounding excuse exists: e.g. adjustments that cancel
+		// a representable distance exactly give exactly 0, which is not positive,
+		// so the raw distance is the documented answer.
+		a1, a2 := c.A.Adj, c.B.Adj
+		evals := []float64{(df + a1) + a2, (df + a2) + a1, df + (a1 + a2)}
+		same := true
+		for _, e := range evals {
+			if (e > 0) != (adjusted.Sign() > 0) {
+				same = false
+			}
+		}
+		dExact := new(big.Float).SetPrec(256).SetFloat64(df)
+		// ... and only claimed where the distance itself is computed without any
+		// rounding in every reasonable implementation: coinciding points (the
+		// Euclidean term is exactly 0) whose height sum is representable.
+		samePoint := true
+		for i := range c.A.Vec {
+			if c.A.Vec[i] != c.B.Vec[i] {
+				samePoint = false
+			}
+		}
+		if same && samePoint && dExact.Cmp(d) == 0 {
+			ambiguous = false
+			x.Label("guard-exact-no-rounding")
+		}
+	}
 	want := d
 	if adjusted.Sign() > 0 {
 		want = adjusted
